@@ -218,10 +218,24 @@ Definition set_name (enc_mac : list Z -> option (list Z)) (value : list Z) (r : 
           rec_luni := Some value |}
   else Err AssertErr.
 
-(* Group.new(name): LayerRecord(name=name) and set_data(UNICODE_LAYER_NAME, name) - no '?' fallback.
-   PixelLayer.frompil(.., layer_name): layer_record.name = layer_name - no fallback, no luni block. *)
-Definition group_new_rec (name : list Z) : lrec := {| rec_name := name; rec_luni := Some name |}.
-Definition frompil_rec (name : list Z) : lrec := {| rec_name := name; rec_luni := None |}.
+(* Names given at construction, as the code is after commit cc4d99c (fix of F-C19-3):
+     Group.new(name):             assert len(name) < 256; LayerRecord(name=_legacy_name(name));
+                                  set_data(UNICODE_LAYER_NAME, name)
+     PixelLayer.frompil(.., name): assert len(layer_name) < 256; record.name = _legacy_name(layer_name);
+                                  set_data(UNICODE_LAYER_NAME, layer_name)
+   _legacy_name(v) = v if mac_roman can express it, else "?"  - the rule of the setter. *)
+Definition legacy_name (enc_mac : list Z -> option (list Z)) (v : list Z) : list Z :=
+  match enc_mac v with Some _ => v | None => [63] end.
+Definition ctor_rec (enc_mac : list Z -> option (list Z)) (name : list Z) : res lrec :=
+  if Z.of_nat (length name) <? 256 then
+    Ok {| rec_name := legacy_name enc_mac name; rec_luni := Some name |}
+  else Err AssertErr.
+
+(* The constructors as they were BEFORE cc4d99c (kept as documentation of F-C19-3):
+   Group.new: LayerRecord(name=name) + luni block, no '?' fallback;
+   PixelLayer.frompil: layer_record.name = layer_name, no fallback, no luni block. *)
+Definition group_new_rec_orig (name : list Z) : lrec := {| rec_name := name; rec_luni := Some name |}.
+Definition frompil_rec_orig (name : list Z) : lrec := {| rec_name := name; rec_luni := None |}.
 
 Definition tag_8BIM : list Z := [56; 66; 73; 77].
 Definition tag_luni : list Z := [108; 117; 110; 105].
